@@ -44,17 +44,6 @@ Proof.
 Qed.
 
 (* ============================ outer scanner ============================ *)
-(* x keeps the brace depth at or above its starting level, ends k levels lower, has no backslash *)
-Fixpoint okO (k : nat) (x : str) : bool :=
-  match x with
-  | [] => (k =? 0)%nat
-  | c :: r =>
-      if c =? 92 then false
-      else if c =? 123 then okO (S k) r
-      else if c =? 125 then match k with O => false | S k' => okO k' r end
-      else okO k r
-  end.
-
 Lemma okO_app : forall x k j y, okO k x = true -> okO (k + j) (x ++ y) = okO j y.
 Proof.
   induction x as [|c r IH]; intros k j y H; cbn [okO app] in *.
@@ -200,20 +189,6 @@ Proof.
   cbn [ws forallb] in H. apply andb_true_iff in H as [Hc Hr].
   rewrite sp_skip_space by assumption. apply IH; auto.
 Qed.
-
-(* x is copied verbatim by the splitter from (depth D + k, quoted q) and leaves it at (D, unquoted) *)
-Fixpoint okS (k : nat) (q : bool) (x : str) : bool :=
-  match x with
-  | [] => (k =? 0)%nat && negb q
-  | c :: r =>
-      if c =? 92 then false
-      else if c =? 34 then match k with O => false | S _ => okS k (negb q) r end
-      else if q then okS k q r
-      else if c =? 123 then okS (S k) q r
-      else if c =? 125 then match k with O => false | S k' => okS k' q r end
-      else if is_space c then match k with O => false | S _ => okS k q r end
-      else okS k q r
-  end.
 
 Lemma okS_app : forall x k q j y, okS k q x = true -> okS (k + j) q (x ++ y) = okS j false y.
 Proof.
